@@ -219,7 +219,7 @@ def tie(ctx):
         if bad:
             fam["normalize"]["disagreements"].append({"why": f"[{tag}] region_coverage{bad[0][0]} = {bad[0][1]} but the model gives {bad[0][2]}", "input": inp})
     return {"families": fam, "violations": violations, "evaluations": len(metas), "distinct_nontrivial": len(distinct),
-            "rule": "generated genes (either strand, with/without pseudogene) x random read sets (120 locus reads with indels/clips + 60 neutral-region reads with deletions/insertions/clips; every other set with secondary/duplicate/supplementary/hard-clipped reads) x custom neutral regions; four metamorphic variants each (self, k-fold k in 2..5, gene-only k-fold, empty neutral) + profile YAML round trip; distinct by hash",
+            "rule": "generated genes (either strand, with/without pseudogene) x random read sets (120 locus reads with indels/clips + 60 neutral-region reads with deletions/insertions/clips; every other set with secondary/duplicate/supplementary/hard-clipped reads) x custom neutral regions (half of them a few hundred bases beside the locus; every fourth locus several kilobases long); four metamorphic variants each (self, k-fold k in 2..5, gene-only k-fold, empty neutral) + profile YAML round trip; distinct by hash",
             "samples": samples, "stats": dict(stats)}
 
 
